@@ -77,6 +77,20 @@ def _cfg_contains(interp, cfg, sec):
     return _presence(interp.ctx, "sec", sec)
 
 
+def _flag(ctx, name):
+    st = ctx.__dict__.setdefault("_flags", {})
+    if name not in st:
+        st[name] = ctx.bool(name, inp=True)
+    return st[name]
+
+
+def _realsym(ctx, name):
+    st = ctx.__dict__.setdefault("_reals", {})
+    if name not in st:
+        st[name] = ctx.real(name, inp=True)
+    return st[name]
+
+
 def _value(interp, sec, key):
     ctx = interp.ctx
     st = ctx.__dict__.setdefault("_cfgval", {})
@@ -85,7 +99,7 @@ def _value(interp, sec, key):
     if key == "emodulus medium":
         v = MEDIA[-1]
         for m in MEDIA[:-1]:
-            if ctx.decide(ctx.bool(f"medium_is_{m}", inp=True)):
+            if ctx.decide(_flag(ctx, f"medium_is_{m}")):
                 v = m
                 break
         # stored with its original capitalisation
@@ -93,10 +107,11 @@ def _value(interp, sec, key):
     elif key in ("emodulus lut", "emodulus viscosity model", "chip region"):
         v = SOpaque(ctx.const(f"cfg_{key}".replace(" ", "_"), Elem), str)
         if key == "chip region":
-            v = "channel" if ctx.decide(ctx.bool("chip_region_is_channel", inp=True)) else "reservoir"
+            v = "channel" if ctx.decide(_flag(ctx, "chip_region_is_channel")) else "reservoir"
     else:
-        v = ctx.real(f"cfg_{sec}_{key}".replace(" ", "_"))
-        ctx.assume(v.e > 0)
+        v = _realsym(ctx, f"cfg_{sec}_{key}".replace(" ", "_"))
+        if key != "emodulus temperature":      # a temperature of 0 degC (or below) is a valid setting
+            ctx.assume(v.e > 0)
     st[(sec, key)] = v
     return v
 
@@ -299,6 +314,13 @@ def derive_hashed(inst):
     return keys, secs, feats, None
 
 
+DEFAULT_KEYS = [("calculation", k) for k in ("emodulus lut", "emodulus medium", "emodulus temperature",
+                                             "emodulus viscosity", "emodulus viscosity model")] \
+    + [("calculation", f"crosstalk fl{i}{j}") for i in "123" for j in "123" if i != j] \
+    + [("imaging", "pixel size"), ("imaging", "frame rate"), ("setup", "flow rate"), ("setup", "channel width"),
+       ("setup", "chip region")]
+
+
 class AncReads(Contract):
     """reads frame of one registered instance"""
     opaque_modules = ("dclab.features",)
@@ -334,14 +356,52 @@ class AncReads(Contract):
         ds = ctx.obj("AncDS", {"_N": N, "config": ctx.obj("Cfg", {}), "_feature_candidates": []}, name="ds")
         # this instance is the one the dataset selects
         ctx.assume(avail_formula(ctx, self.inst, self.insts))
-        ctx.assume(z3.Bool("chip_region_is_channel") == ctx.bool("chip_region_is_channel", inp=True).e)
+        ctx.assume(z3.Bool("chip_region_is_channel") == _flag(ctx, "chip_region_is_channel").e)
+        # symbols of the state (registered as inputs so that counterexamples can be replayed)
+        for m in MEDIA[:-1]:
+            _flag(ctx, f"medium_is_{m}")
+        for (sec, key) in DEFAULT_KEYS:
+            _presence(ctx, "cfg", f"{sec}:{key}")
+            if key in ("emodulus temperature", "emodulus viscosity"):
+                _realsym(ctx, f"cfg_{sec}_{key}".replace(" ", "_"))
+        for f in ("temp", "fl1_max", "fl2_max", "fl3_max"):
+            _presence(ctx, "feat", f)
         return {"mm": ds}
 
     # -- per path: remember (path condition, outcome) ---------------------------------
     def post(self, ctx, st):
         from pyvc.engine import sig_of
-        self.paths.append((list(ctx.pc), ("return", sig_of(st.result)), tuple(ctx.decisions)))
-        return []
+        sig = sig_of(st.result)
+        self.paths.append((list(ctx.pc), ("return", sig), tuple(ctx.decisions)))
+        posts = []
+        if self.inst.feature_name == "emodulus":
+            posts += self.precedence(ctx, sig)
+        return posts
+
+    def precedence(self, ctx, sig):
+        """documented precedence of the Young's modulus scenarios: 'emodulus viscosity'
+        with medium 'other' (B) uses the viscosity and no temperature; otherwise a
+        configured 'emodulus temperature' (C) is used even if a `temp` feature exists
+        (also a temperature of 0); otherwise the `temp` feature (A)"""
+        has_t = _presence(ctx, "cfg", "calculation:emodulus temperature").e
+        has_v = _presence(ctx, "cfg", "calculation:emodulus viscosity").e
+        has_m = _presence(ctx, "cfg", "calculation:emodulus medium").e
+        other = z3.Or(z3.Not(has_m), z3.Bool("medium_is_other"))
+        kw = dict(sig[2]) if isinstance(sig, tuple) and len(sig) == 3 and str(sig[0]).endswith("get_emodulus") else None
+        if kw is None:
+            return [("the Young's modulus is the result of features.emodulus.get_emodulus", z3.BoolVal(False))]
+        t, m = kw.get("temperature"), kw.get("medium")
+        t_cfg = t == ("sym", "cfg_calculation_emodulus_temperature")
+        t_feat = t == ("sym", "feat_temp")
+        t_none = t == ("const", "None")
+        m_visc = m == ("sym", "cfg_calculation_emodulus_viscosity")
+        return [("scenario B (viscosity given, medium 'other'): the viscosity is used, no temperature",
+                 z3.Implies(z3.And(has_v, other), z3.BoolVal(m_visc and t_none))),
+                ("scenario C (temperature configured): the configured temperature is used, whatever its value and "
+                 "whether or not a `temp` feature exists",
+                 z3.Implies(z3.And(has_t, z3.Not(z3.And(has_v, other))), z3.BoolVal(t_cfg and not m_visc))),
+                ("scenario A (no configured temperature): the `temp` feature is used",
+                 z3.Implies(z3.And(z3.Not(has_t), z3.Not(z3.And(has_v, other))), z3.BoolVal(t_feat and not m_visc)))]
 
     def raises(self, ctx, st, exc):
         self.paths.append((list(ctx.pc), ("raise", exc.name), tuple(ctx.decisions)))
@@ -498,6 +558,7 @@ for _i in "123":
 
 def _native_ds(state):
     """dict-based dataset with the features / configuration keys of `state`"""
+    state = {k.replace(" ", "_"): v for k, v in state.items()}
     import numpy as np
     import dclab
     n = 6
@@ -512,13 +573,17 @@ def _native_ds(state):
         present = {"deform": feats["deform"]}
     ds = dclab.new_dataset(present)
     for (sec, key), (v1, v2) in DEFAULTS.items():
-        if state.get(f"has_cfg_{sec}:{key}", False):
+        if state.get(f"has_cfg_{sec}:{key}".replace(" ", "_"), False):
             val = v1
             if key == "emodulus medium":
                 val = "other" if state.get("medium_is_other") else \
                     ("CellCarrier" if state.get("medium_is_cellcarrier") else "no such medium")
             if key == "chip region":
                 val = "channel" if state.get("chip_region_is_channel", True) else "reservoir"
+            if key == "emodulus temperature" and "cfg_calculation_emodulus_temperature" in state:
+                val = float(state["cfg_calculation_emodulus_temperature"])
+            if key == "emodulus viscosity" and float(state.get("cfg_calculation_emodulus_viscosity", 0) or 0) > 0:
+                val = float(state["cfg_calculation_emodulus_viscosity"])
             ds.config[sec][key] = val
     return ds
 
@@ -541,6 +606,31 @@ def _same(o1, o2):
     return o1[1].shape == o2[1].shape and np.allclose(o1[1], o2[1], equal_nan=True)
 
 
+def _precedence_native(ds, got):
+    """the documented scenario, computed directly with get_emodulus"""
+    import numpy as np
+    from dclab.features.emodulus import get_emodulus
+    c = ds.config["calculation"]
+    kw = dict(area_um=ds["area_um"], deform=ds["deform"], channel_width=ds.config["setup"]["channel width"],
+              flow_rate=ds.config["setup"]["flow rate"], px_um=ds.config["imaging"]["pixel size"],
+              lut_data=c["emodulus lut"])
+    medium = c.get("emodulus medium", "other")
+    if "emodulus viscosity" in c and medium.lower() == "other":
+        want, which = get_emodulus(medium=c["emodulus viscosity"], temperature=None, visc_model=None, **kw), "B"
+    elif "emodulus temperature" in c:
+        want, which = get_emodulus(medium=medium, temperature=c["emodulus temperature"],
+                                   visc_model=c.get("emodulus viscosity model", "herold-2017"), **kw), "C"
+    elif "temp" in ds:
+        want, which = get_emodulus(medium=medium, temperature=ds["temp"],
+                                   visc_model=c.get("emodulus viscosity model", "herold-2017"), **kw), "A"
+    else:
+        return None
+    if not np.allclose(np.asarray(got, dtype=float), np.asarray(want, dtype=float), equal_nan=True):
+        return (f"documented scenario {which} gives {np.asarray(want)[:3]}, the dataset returns {np.asarray(got)[:3]} "
+                f"(temperature setting {c.get('emodulus temperature')}, temp feature {'present' if 'temp' in ds else 'absent'})")
+    return None
+
+
 def replay(unit_name, inp, obligation=""):
     import warnings
     feat = unit_name.replace("reads of ", "").split("[")[0]
@@ -556,8 +646,17 @@ def replay(unit_name, inp, obligation=""):
         first = _outcome(ds, feat)
         if first[0] == "raise":
             return {"failed": True, "detail": f"'{feat}' in ds is True but reading it raises {first[1]}"}
-        # change / set / remove every configuration key in turn and compare with a fresh dataset
+        if feat == "emodulus":
+            msg = _precedence_native(ds, first[1])
+            if msg:
+                return {"failed": True, "detail": msg}
+        # change / set / remove the configuration keys in turn and compare with a fresh dataset
+        relevant = {"emodulus": ("emodulus", "pixel", "flow", "channel", "chip"), "fl": ("crosstalk",),
+                    "time": ("frame rate",), "area_um": ("pixel",), "volume": ("pixel",)}
+        pats = next((v for k, v in relevant.items() if feat.startswith(k)), ("",))
         for (sec, key), (v1, v2) in DEFAULTS.items():
+            if not any(p_ in key for p_ in pats):
+                continue
             for action in ("set", "remove"):
                 ds = _native_ds(state)
                 if feat not in ds or _outcome(ds, feat)[0] == "raise":
@@ -674,7 +773,7 @@ class IsAvailable(Contract):
         by_uid[other.uid] = self.inst
         self._cls = ctx.obj("AFClass", {"features": objs + [other]}, name="AncillaryFeature")
         self.callees = {"AF.req_func": IsChannel(by_uid)}
-        ctx.assume(z3.Bool("chip_region_is_channel") == ctx.bool("chip_region_is_channel", inp=True).e)
+        ctx.assume(z3.Bool("chip_region_is_channel") == _flag(ctx, "chip_region_is_channel").e)
         self.cfg_reads, self.feature_reads = set(), set()
         return {"self": me, "rtdc_ds": ds, "verbose": False}
 
